@@ -179,17 +179,21 @@ class Measure(Harness):
     """send_init_gex + get_dh_modulus_size on a GEX_GROUP message whose modulus has exactly b bits (content symbolic): measured size == b."""
     prop, ob = PROP, 'O2'
 
-    def __init__(self, bits, lead_zero):
-        self.bits, self.lead_zero = bits, lead_zero
-        self.name = 'measure-%d-%s' % (bits, 'lz' if lead_zero else 'nolz')
+    def __init__(self, bits, lead_zero, symtop=None):
+        self.bits, self.lead_zero, self.symtop = bits, lead_zero, symtop
+        self.name = 'measure-%d-%s%s' % (bits, 'lz' if lead_zero else 'nolz', ('-top%d' % symtop) if symtop else '')
         self.width = bits + 80
 
     def params(self):
-        return {'bits': self.bits, 'lead_zero': self.lead_zero}
+        return {'bits': self.bits, 'lead_zero': self.lead_zero, 'symtop': self.symtop}
 
     def inputs(self):
         nb = (self.bits + 7) // 8
-        body = zx.fresh_bytes('p', nb)
+        if self.symtop:
+            # the largest sizes: only the leading bytes (which decide the bit length) and the last one are symbolic, the middle is fixed
+            body = zx.fresh_bytes('p', self.symtop) + b'\x5a' * (nb - self.symtop - 1) + zx.fresh_bytes('q', 1)
+        else:
+            body = zx.fresh_bytes('p', nb)
         top = self.bits - 8 * (nb - 1)          # number of significant bits in the first byte
         if zx.active():
             b0 = body[0]
@@ -360,6 +364,9 @@ def tasks(tier):
         # servers send it - it must not be read as a negative number)
         if bits % 8 or bits in (1024, 2048, 4096):
             T.append(Measure(bits, False))
+    for bits in ((8192,) if q else (6144, 8191, 8192)):
+        T.append(Measure(bits, True, 2))
+        T.append(Measure(bits, False, 2))
     for bits in ((1024, 2048) if q else (512, 1024, 2048, 3072, 4096)):
         for sec in ('dead', 'disconnect', 'other-type', 'short-group', 'group-without-reply', 'debug-then-disconnect', 'debug-then-group'):
             T.append(SendInitOutcomes(bits, sec))
@@ -380,7 +387,7 @@ def harness_by_name(name, params):
     if k == 'sendinit':
         return SendInitOutcomes(p['bits'], p['second'])
     if k == 'measure':
-        return Measure(p['bits'], p['lead_zero'])
+        return Measure(p['bits'], p['lead_zero'], p.get('symtop'))
     if k == 'postprocess':
         return PostProcess(p['sw'], p['advertised'], p['nd'])
     raise KeyError(name)
